@@ -181,7 +181,9 @@ func c14Cycle(r *zsim.Run, p *p2cPicker, ids map[balancer.SubConn]int, bes []*c1
 		}
 		// an unacceptable completion at least a millisecond after the previous one must actually lower a positive score
 		// (otherwise a backend failing at a high request rate would never become unhealthy)
-		if !acceptable && s0 > 0 && s1 >= s0 && b.everDone && r.Now()-b.lastDone >= time.Millisecond {
+		// (not with stalled tasks: a completion held between reading the clock and publishing it computes its decay
+		// from the stale reading, which may be no later than the previous completion's)
+		if !acceptable && s0 > 0 && s1 >= s0 && b.everDone && r.Now()-b.lastDone >= time.Millisecond && r.StallOdds == 0 {
 			r.Failf("success-does-not-fall", "connection %d: success score stayed at %d after an unacceptable completion %v after the previous completion (err=%v)", id, s1, r.Now()-b.lastDone, e)
 			return false
 		}
